@@ -1340,6 +1340,72 @@ std::string det0_op()
   return std::to_string(fm::matrix::determinant(empty));
 }
 
+// ---- operands of DIFFERENT element types (int with long, short with int, long long with short): the operators are declared for
+// two value types and compute in the common type; the reference is plain arithmetic per component in long long.  A conversion of
+// one operand to the other operand's type before the operation (a seeded regression) only shows when a value does not fit.
+template <typename L, typename R, fcppt::math::size_type N>
+std::string mixed_check_one(std::array<long long, N> const &a, std::array<long long, N> const &b, char const *name)
+{
+  namespace fv = fcppt::math::vector;
+  namespace fd = fcppt::math::dim;
+  using lv = fv::static_<L, N>;
+  using rv = fv::static_<R, N>;
+  using ld = fd::static_<L, N>;
+  using rd = fd::static_<R, N>;
+  using ct = std::common_type_t<L, R>;
+  lv const x{fv::init<lv>([&a](auto const i) { return static_cast<L>(a[i()]); })};
+  rv const y{fv::init<rv>([&b](auto const i) { return static_cast<R>(b[i()]); })};
+  ld const dx{fd::init<ld>([&a](auto const i) { return static_cast<L>(a[i()]); })};
+  rd const dy{fd::init<rd>([&b](auto const i) { return static_cast<R>(b[i()]); })};
+  auto const add = x + y;
+  auto const sub = x - y;
+  auto const bus = y - x;
+  auto const mul = x * y;
+  auto const dadd = dx + dy;
+  auto const dsub = dx - dy;
+  auto const dmul = dx * dy;
+  static_assert(std::is_same_v<typename decltype(sub)::value_type, ct>);
+  for (fcppt::math::size_type i = 0; i < N; ++i)
+  {
+    long long const l = static_cast<long long>(static_cast<L>(a[i]));
+    long long const r = static_cast<long long>(static_cast<R>(b[i]));
+    if (static_cast<long long>(add.get_unsafe(i)) != l + r) return std::string{"MISMATCH:"} + name + ":vector+";
+    if (static_cast<long long>(sub.get_unsafe(i)) != l - r) return std::string{"MISMATCH:"} + name + ":vector-";
+    if (static_cast<long long>(bus.get_unsafe(i)) != r - l) return std::string{"MISMATCH:"} + name + ":vector-(swapped)";
+    if (static_cast<long long>(mul.get_unsafe(i)) != l * r) return std::string{"MISMATCH:"} + name + ":vector*";
+    if (static_cast<long long>(dadd.get_unsafe(i)) != l + r) return std::string{"MISMATCH:"} + name + ":dim+";
+    if (static_cast<long long>(dsub.get_unsafe(i)) != l - r) return std::string{"MISMATCH:"} + name + ":dim-";
+    if (static_cast<long long>(dmul.get_unsafe(i)) != l * r) return std::string{"MISMATCH:"} + name + ":dim*";
+  }
+  return "ok";
+}
+
+std::string mixed_check(unsigned long long seed)
+{
+  // a small LCG: reproducible operands; the wide operand takes values far outside the narrow type, the narrow one stays small
+  auto next = [&seed] { seed = seed * 6364136223846793005ULL + 1442695040888963407ULL; return seed >> 33; };
+  std::array<long long, 3> small{}, wide{};
+  for (std::size_t i = 0; i < 3; ++i)
+  {
+    small[i] = static_cast<long long>(next() % 2001) - 1000;
+    wide[i] = (static_cast<long long>(next() % 2001) - 1000) * (next() % 4 == 0 ? 1LL : 5000011LL);
+  }
+  std::string r;
+  if ((r = mixed_check_one<int, long, 3>(small, wide, "int.long")) != "ok") return r;
+  if ((r = mixed_check_one<long, int, 3>(wide, small, "long.int")) != "ok") return r;
+  std::array<long long, 3> tiny{}, mid{};
+  for (std::size_t i = 0; i < 3; ++i)
+  {
+    tiny[i] = static_cast<long long>(next() % 21) - 10; // products with the wide operand stay inside int
+    mid[i] = (static_cast<long long>(next() % 2001) - 1000) * (next() % 4 == 0 ? 1LL : 70001LL);
+  }
+  if ((r = mixed_check_one<short, int, 3>(tiny, mid, "short.int")) != "ok") return r;
+  if ((r = mixed_check_one<int, short, 3>(mid, tiny, "int.short")) != "ok") return r;
+  if ((r = mixed_check_one<long long, short, 3>(wide, tiny, "longlong.short")) != "ok") return r;
+  return "ok";
+}
+
+
 std::string handle1(std::vector<std::string> const &t)
 {
   try
@@ -1380,6 +1446,8 @@ std::string handle1(std::vector<std::string> const &t)
       return bits_op(t);
     if (t[0] == "det0" && t.size() == 1)
       return det0_op();
+    if (t[0] == "mixchk" && t.size() == 2)
+      return mixed_check(static_cast<unsigned long long>(vh::to_ll(t[1])));
     if (t[0] == "mem" || t[0] == "mems")
       return c14_member_handle(t);
     if (t[0] == "nb" || t[0] == "md" || t[0] == "tp" || t[0] == "inf")
@@ -1424,6 +1492,7 @@ std::string digest_of(unsigned count, F line)
 }
 
 std::string handle0(std::vector<std::string> const &t);
+
 
 std::string handle(std::vector<std::string> const &t)
 {
